@@ -41,6 +41,10 @@ type cfgData struct {
 	longRun bool
 	// closers: number of goroutines calling Close at the chosen round (default 1)
 	closers int
+	// closeInHandler: (part e) instead of a closer goroutine, the application's
+	// own notification handler calls Close when it receives its n-th update
+	// ("seen enough, stop"); 0 = off
+	closeInHandler int
 	// pollAt: (Poll-type query) round at which another goroutine calls Poll on
 	// the reconnecting client, on a transport that has stalled; 0 = never
 	pollAt int
@@ -162,6 +166,14 @@ func configsBase(tier string) []xplore.Config {
 		for _, cache := range []bool{false, true} {
 			for at := 0; at < events; at++ {
 				out = append(out, xplore.Config{Name: fmt.Sprintf("e: real client (cache=%v) used directly, Subscribe x%d over scripted impl conns=%v, Close from another goroutine started at transport event %d", cache, len(sc), sc, at), Bound: bound - 2, Data: cfgData{part: "e", attempts: sc, cache: cache, closeAt: at}})
+			}
+		}
+	}
+	// (e, continued) the application's handler itself calls Close on its n-th update
+	for _, sc := range [][]string{{"bbbp"}, {"nnp"}, {"bf", "bbp"}} {
+		for _, cache := range []bool{false, true} {
+			for _, nth := range []int{1, 2} {
+				out = append(out, xplore.Config{Name: fmt.Sprintf("e: real client (cache=%v) used directly, conns=%v, the handler calls Close on update %d", cache, sc, nth), Bound: bound - 2, Data: cfgData{part: "e", attempts: sc, cache: cache, closeAt: -7, closeInHandler: nth}})
 			}
 		}
 	}
@@ -864,7 +876,7 @@ func runE(cfg xplore.Config, d cfgData, ch vrt.Chooser, trace bool) (xplore.Outc
 		// around from there): started at the very beginning it would almost always
 		// run before any transport exists
 		hook := func() {
-			if events++; events-1 != d.closeAt {
+			if events++; events-1 != d.closeAt || d.closeInHandler > 0 {
 				return
 			}
 			vrt.GoNamed("closer", func() {
@@ -892,12 +904,21 @@ func runE(cfg xplore.Config, d cfgData, ch vrt.Chooser, trace bool) (xplore.Outc
 		} else {
 			c = &client.BaseClient{}
 		}
+		updates := 0
 		handler := func(n client.Notification) error {
 			switch v := n.(type) {
 			case client.Connected:
 				tr.add("CONNECTED")
 			case client.Update:
 				tr.add("N(%v)", v.Val)
+				if updates++; d.closeInHandler > 0 && updates == d.closeInHandler {
+					closerTID = vrt.ThreadID()
+					closeInvoked = true
+					tr.add("CLOSE(from the handler)")
+					err := c.Close()
+					closeReturned = true
+					tr.add("CLOSED(%v)", err)
+				}
 			default:
 				tr.add("N?")
 			}
